@@ -1,1 +1,348 @@
-(** Props/C16.v — placeholder, to be written. *)
+(** Props/C16.v — structured file steps round-trip and format every string node.
+
+    Level: PARTIAL.  json.dump(indent=2, ensure_ascii=False) / json.load are modelled by a
+    real printer and parser ([jprint], [json_parse]) and their round trip is proved.
+    ruamel.yaml and tomllib / tomli-w are third-party code that is not modelled: for them
+    the round-trip law is the named hypothesis [law] of each theorem (a Section hypothesis
+    in Proofs/CodecProofs.v, tested on every generated payload by the correspondence run,
+    not proved), stated on an explicit domain ([yaml_representable], [toml_representable]).
+    Everything pypyr itself does around the codec - format the step input once, serialise
+    the formatted payload to the formatted path, parse, store at the key / merge at the
+    root, dump ∘ format ∘ load - is proved for an arbitrary codec satisfying the law and
+    instantiated, closed, for JSON. *)
+From PV Require Import Codec FormatProofs CodecProofs.
+Open Scope string_scope.
+
+(** * JSON: parse ∘ print = id
+    for every JSON-representable value: None, bool, int, str (any bytes), lists and dicts
+    with distinct str keys, nested to any depth, with the real 2-space indented layout. *)
+Theorem C16_json_roundtrip : forall v,
+  json_representable v -> exists s, json_print v = Some s /\ json_parse s = Some v.
+Proof. exact json_print_parse. Qed.
+Print Assumptions C16_json_roundtrip.
+
+(** the same at any indentation level (a document embedded in a deeper one) *)
+Theorem C16_json_roundtrip_any_indent : forall lvl v,
+  json_rt v = true -> json_parse (jprint lvl v) = Some v.
+Proof. exact json_roundtrip_at. Qed.
+Print Assumptions C16_json_roundtrip_any_indent.
+
+(** and inside any surrounding text: the parser consumes exactly the printed value *)
+Theorem C16_json_roundtrip_in_context : forall v lvl fuel rest,
+  json_rt v = true -> (need v <= fuel)%nat -> follow_ok rest = true ->
+  parse_value fuel (jprint lvl v ++ rest) = Some (v, rest).
+Proof. intros v lvl fuel rest H. exact (rt_at_all v H lvl fuel rest). Qed.
+Print Assumptions C16_json_roundtrip_in_context.
+
+(** strings alone: whatever bytes, the scanner undoes the escaping *)
+Theorem C16_json_string_roundtrip : forall s rest,
+  parse_str_body (json_str_body s ++ String dquote rest) = Some (s, rest).
+Proof. exact parse_str_body_print. Qed.
+Print Assumptions C16_json_string_roundtrip.
+
+(** integers alone *)
+Theorem C16_json_int_roundtrip : forall z rest,
+  follow_ok rest = true -> parse_int (str_of_Z z ++ rest) = Some (z, rest).
+Proof. exact parse_int_print. Qed.
+Print Assumptions C16_json_int_roundtrip.
+
+(** the domain is tight: what json.dump accepts but [json_representable] excludes does
+    not come back equal (tuples come back as lists, int keys as str) *)
+Theorem C16_json_tuple_refuted :
+  exists v, json_ok v = true /\ json_parse (jprint 0 v) <> Some v.
+Proof. exact json_tuple_not_roundtrip. Qed.
+Print Assumptions C16_json_tuple_refuted.
+
+Theorem C16_json_int_key_refuted :
+  exists v, json_ok v = true /\ json_parse (jprint 0 v) <> Some v.
+Proof. exact json_int_key_not_roundtrip. Qed.
+Print Assumptions C16_json_int_key_refuted.
+
+(** * fetch ∘ write, for ANY codec satisfying the round-trip law on [dom]
+    [eqv] is document equality ([eq] for JSON and YAML; equality up to key order for TOML).
+    [fp] is the formatted payload: the payload is formatted ONCE, as part of the step
+    input, by the same [format_value] that C08/C09 are about. *)
+
+(** with a key: the fetched value, equal to the formatted payload, is stored at the key *)
+Theorem C16_write_fetch : forall f c (dom : val -> Prop) (eqv : val -> val -> Prop),
+  (forall a b, eqv a b -> has_len a = has_len b /\ is_mapping a = is_mapping b) ->
+  (forall v, dom v -> exists s v', c_print c v = Ok s /\ c_parse c s = Ok v' /\ eqv v' v) ->
+  forall ctx1 ctx2 files p_raw pl_raw p2_raw k_raw path fp key,
+    sget (write_key f) ctx1 = Some (VDict [(VStr "path", p_raw); (VStr "payload", pl_raw)]) ->
+    format_value FUEL1 ctx1 p_raw = Ok (VStr path) ->
+    format_value FUEL1 ctx1 pl_raw = Ok fp ->
+    (f = FToml -> py_truth fp = true) ->
+    dom fp -> has_len fp = true ->
+    sget (fetch_key f) ctx2 = Some (VDict [(VStr "path", p2_raw); (VStr "key", k_raw)]) ->
+    format_value FUEL1 ctx2 p2_raw = Ok (VStr path) ->
+    format_value FUEL1 ctx2 k_raw = Ok (VStr key) -> key <> EmptyString ->
+    exists files' v',
+      write_step f c ctx1 files = Ok files' /\
+      fetch_step f c ctx2 files' = Ok (dict_set (VStr key) v' ctx2) /\
+      eqv v' fp.
+Proof. exact write_fetch_key. Qed.
+Print Assumptions C16_write_fetch.
+
+(** The statement WITHOUT [has_len fp = true] is false of the code as it is: a document
+    whose root is an int / bool / None / float is written fine, but fetchjson / fetchyaml
+    end with logger.info(..., len(payload)) and raise TypeError.
+      full statement:  forall ... (as above, minus has_len) ..., fetch_step ... = Ok ...
+    Witness: payload 5. *)
+Theorem C16_write_fetch_scalar_root_refuted :
+  exists ctx files,
+    json_representable (VInt 5) /\
+    write_step FJson json_codec ctx [] = Ok files /\
+    fs_read "/T/n.json" files = Some "5" /\
+    fetch_step FJson json_codec ctx files = Err "TypeError" "object of type 'int' has no len()".
+Proof. exact fetch_scalar_root_fails. Qed.
+Print Assumptions C16_write_fetch_scalar_root_refuted.
+
+(** without a key: a mapping payload is merged into the context root *)
+Theorem C16_write_fetch_root : forall f c (dom : val -> Prop) (eqv : val -> val -> Prop),
+  (forall a b, eqv a b -> has_len a = has_len b /\ is_mapping a = is_mapping b) ->
+  (forall v, dom v -> exists s v', c_print c v = Ok s /\ c_parse c s = Ok v' /\ eqv v' v) ->
+  forall ctx1 ctx2 files p_raw pl_raw p2_raw path fp,
+    sget (write_key f) ctx1 = Some (VDict [(VStr "path", p_raw); (VStr "payload", pl_raw)]) ->
+    format_value FUEL1 ctx1 p_raw = Ok (VStr path) ->
+    format_value FUEL1 ctx1 pl_raw = Ok fp ->
+    (f = FToml -> py_truth fp = true) ->
+    dom fp -> is_mapping fp = true ->
+    sget (fetch_key f) ctx2 = Some (VDict [(VStr "path", p2_raw)]) ->
+    format_value FUEL1 ctx2 p2_raw = Ok (VStr path) ->
+    exists files' pl',
+      write_step f c ctx1 files = Ok files' /\
+      fetch_step f c ctx2 files' = Ok (dict_update ctx2 pl') /\
+      eqv (VDict pl') fp.
+Proof. exact write_fetch_root. Qed.
+Print Assumptions C16_write_fetch_root.
+
+(** the matching file context parser on the written file *)
+Theorem C16_write_file_parser : forall f c (dom : val -> Prop) (eqv : val -> val -> Prop),
+  (forall a b, eqv a b -> has_len a = has_len b /\ is_mapping a = is_mapping b) ->
+  (forall v, dom v -> exists s v', c_print c v = Ok s /\ c_parse c s = Ok v' /\ eqv v' v) ->
+  forall ctx1 files p_raw pl_raw path fp,
+    sget (write_key f) ctx1 = Some (VDict [(VStr "path", p_raw); (VStr "payload", pl_raw)]) ->
+    format_value FUEL1 ctx1 p_raw = Ok (VStr path) ->
+    format_value FUEL1 ctx1 pl_raw = Ok fp ->
+    (f = FToml -> py_truth fp = true) ->
+    dom fp -> is_mapping fp = true ->
+    exists files' v',
+      write_step f c ctx1 files = Ok files' /\
+      file_parser f c [path] files' = Ok (Some v') /\
+      eqv v' fp.
+Proof. exact write_file_parser. Qed.
+Print Assumptions C16_write_file_parser.
+
+(** ** closed for JSON: no hypothesis about the codec is left *)
+Theorem C16_write_fetch_json :
+  forall ctx1 ctx2 files p_raw pl_raw p2_raw k_raw path fp key,
+    sget "fileWriteJson" ctx1 = Some (VDict [(VStr "path", p_raw); (VStr "payload", pl_raw)]) ->
+    format_value FUEL1 ctx1 p_raw = Ok (VStr path) ->
+    format_value FUEL1 ctx1 pl_raw = Ok fp ->
+    json_representable fp -> has_len fp = true ->
+    sget "fetchJson" ctx2 = Some (VDict [(VStr "path", p2_raw); (VStr "key", k_raw)]) ->
+    format_value FUEL1 ctx2 p2_raw = Ok (VStr path) ->
+    format_value FUEL1 ctx2 k_raw = Ok (VStr key) -> key <> EmptyString ->
+    exists files' v',
+      write_step FJson json_codec ctx1 files = Ok files' /\
+      fetch_step FJson json_codec ctx2 files' = Ok (dict_set (VStr key) v' ctx2) /\
+      v' = fp.
+Proof.
+  intros ctx1 ctx2 files p_raw pl_raw p2_raw k_raw path fp key Hw Hp Hpl.
+  exact (write_fetch_key FJson json_codec json_representable eq eq_shape json_law
+           ctx1 ctx2 files p_raw pl_raw p2_raw k_raw path fp key Hw Hp Hpl
+           (fun H => json_not_toml H _)).
+Qed.
+Print Assumptions C16_write_fetch_json.
+
+Theorem C16_write_fetch_root_json :
+  forall ctx1 ctx2 files p_raw pl_raw p2_raw path fp,
+    sget "fileWriteJson" ctx1 = Some (VDict [(VStr "path", p_raw); (VStr "payload", pl_raw)]) ->
+    format_value FUEL1 ctx1 p_raw = Ok (VStr path) ->
+    format_value FUEL1 ctx1 pl_raw = Ok fp ->
+    json_representable fp -> is_mapping fp = true ->
+    sget "fetchJson" ctx2 = Some (VDict [(VStr "path", p2_raw)]) ->
+    format_value FUEL1 ctx2 p2_raw = Ok (VStr path) ->
+    exists files' pl',
+      write_step FJson json_codec ctx1 files = Ok files' /\
+      fetch_step FJson json_codec ctx2 files' = Ok (dict_update ctx2 pl') /\
+      VDict pl' = fp.
+Proof.
+  intros ctx1 ctx2 files p_raw pl_raw p2_raw path fp Hw Hp Hpl.
+  exact (write_fetch_root FJson json_codec json_representable eq eq_shape json_law
+           ctx1 ctx2 files p_raw pl_raw p2_raw path fp Hw Hp Hpl
+           (fun H => json_not_toml H _)).
+Qed.
+Print Assumptions C16_write_fetch_root_json.
+
+(** ** YAML and TOML: the same theorem with the third-party law as the only hypothesis,
+    on its explicit domain.  [yaml_representable] excludes strings containing U+0085 and
+    double-quoted strings containing a blank (known_findings.json: yaml-nel-not-roundtripped,
+    yaml-dq-fold-extra-space). *)
+Theorem C16_write_fetch_yaml : forall c,
+  (forall v, yaml_representable v = true ->
+     exists s v', c_print c v = Ok s /\ c_parse c s = Ok v' /\ v' = v) ->
+  forall ctx1 ctx2 files p_raw pl_raw p2_raw k_raw path fp key,
+    sget "fileWriteYaml" ctx1 = Some (VDict [(VStr "path", p_raw); (VStr "payload", pl_raw)]) ->
+    format_value FUEL1 ctx1 p_raw = Ok (VStr path) ->
+    format_value FUEL1 ctx1 pl_raw = Ok fp ->
+    yaml_representable fp = true -> has_len fp = true ->
+    sget "fetchYaml" ctx2 = Some (VDict [(VStr "path", p2_raw); (VStr "key", k_raw)]) ->
+    format_value FUEL1 ctx2 p2_raw = Ok (VStr path) ->
+    format_value FUEL1 ctx2 k_raw = Ok (VStr key) -> key <> EmptyString ->
+    exists files' v',
+      write_step FYaml c ctx1 files = Ok files' /\
+      fetch_step FYaml c ctx2 files' = Ok (dict_set (VStr key) v' ctx2) /\
+      v' = fp.
+Proof.
+  intros c law ctx1 ctx2 files p_raw pl_raw p2_raw k_raw path fp key Hw Hp Hpl.
+  exact (write_fetch_key FYaml c (fun v => yaml_representable v = true) eq eq_shape law
+           ctx1 ctx2 files p_raw pl_raw p2_raw k_raw path fp key Hw Hp Hpl
+           (fun H => yaml_not_toml H _)).
+Qed.
+Print Assumptions C16_write_fetch_yaml.
+
+Theorem C16_write_fetch_toml : forall c,
+  (forall v, toml_representable v = true ->
+     exists s v', c_print c v = Ok s /\ c_parse c s = Ok v' /\ val_eqv v' v = true) ->
+  forall ctx1 ctx2 files p_raw pl_raw p2_raw k_raw path fp key,
+    sget "fileWriteToml" ctx1 = Some (VDict [(VStr "path", p_raw); (VStr "payload", pl_raw)]) ->
+    format_value FUEL1 ctx1 p_raw = Ok (VStr path) ->
+    format_value FUEL1 ctx1 pl_raw = Ok fp ->
+    py_truth fp = true ->
+    toml_representable fp = true -> has_len fp = true ->
+    sget "fetchToml" ctx2 = Some (VDict [(VStr "path", p2_raw); (VStr "key", k_raw)]) ->
+    format_value FUEL1 ctx2 p2_raw = Ok (VStr path) ->
+    format_value FUEL1 ctx2 k_raw = Ok (VStr key) -> key <> EmptyString ->
+    exists files' v',
+      write_step FToml c ctx1 files = Ok files' /\
+      fetch_step FToml c ctx2 files' = Ok (dict_set (VStr key) v' ctx2) /\
+      val_eqv v' fp = true.
+Proof.
+  intros c law ctx1 ctx2 files p_raw pl_raw p2_raw k_raw path fp key Hw Hp Hpl Ht.
+  exact (write_fetch_key FToml c (fun v => toml_representable v = true)
+           (fun a b => val_eqv a b = true) eqv_shape_bool law
+           ctx1 ctx2 files p_raw pl_raw p2_raw k_raw path fp key Hw Hp Hpl (fun _ => Ht)).
+Qed.
+Print Assumptions C16_write_fetch_toml.
+
+(** * fileformat{json,yaml,toml}: dump ∘ format ∘ load
+    The output is the serialisation of [doc'], where [doc'] is the input document with
+    every string node - mapping keys included - replaced by its formatted value
+    ([FN_str]), every other scalar unchanged ([FN_leaf]), lists and mappings rebuilt
+    element-wise in the same order ([FN_list], [FN_dict]); and, given the codec law on
+    [doc'], parsing the output file gives [doc'] back. *)
+Theorem C16_fileformat_string_nodes :
+  forall c (dom : val -> Prop) (eqv : val -> val -> Prop),
+  (forall v, dom v -> exists s v', c_print c v = Ok s /\ c_parse c s = Ok v' /\ eqv v' v) ->
+  forall ctx text out,
+  fileformat_obj c ctx text = Ok out ->
+  exists doc doc',
+    c_parse c text = Ok doc /\ format_value FUEL ctx doc = Ok doc' /\
+    (is_doc doc = true -> fmt_nodes ctx false doc doc') /\
+    (dom doc' -> exists doc'', c_parse c out = Ok doc'' /\ eqv doc'' doc').
+Proof. exact fileformat_roundtrip. Qed.
+Print Assumptions C16_fileformat_string_nodes.
+
+(** the node relation is what the formatter computes on any document, at any depth *)
+Theorem C16_string_nodes_of_format : forall ctx r n v v',
+  is_doc v = true -> fmt_iter ctx n v r = Ok v' -> fmt_nodes ctx r v v'.
+Proof. exact fmt_iter_string_nodes. Qed.
+Print Assumptions C16_string_nodes_of_format.
+
+(** closed for JSON *)
+Theorem C16_fileformat_json : forall ctx text out,
+  fileformat_obj json_codec ctx text = Ok out ->
+  exists doc doc',
+    json_parse text = Some doc /\ format_value FUEL ctx doc = Ok doc' /\
+    json_print doc' = Some out /\
+    (is_doc doc = true -> fmt_nodes ctx false doc doc') /\
+    (json_representable doc' -> json_parse out = Some doc').
+Proof. exact fileformat_json. Qed.
+Print Assumptions C16_fileformat_json.
+
+(** the step writes that text to [out], or over the in-file when no [out] is given *)
+Theorem C16_fileformat_step_inplace : forall f c ctx files p_raw path text out,
+  sget (format_key f) ctx = Some (VDict [(VStr "in", p_raw)]) ->
+  format_value FUEL1 ctx p_raw = Ok (VStr path) ->
+  fs_read path files = Some text ->
+  fileformat_obj c ctx text = Ok out ->
+  fileformat_step f c ctx files = Ok (fs_write path out files).
+Proof. exact fileformat_step_inplace. Qed.
+Print Assumptions C16_fileformat_step_inplace.
+
+Theorem C16_fileformat_step_out : forall f c ctx files p_raw o_raw path opath text out,
+  sget (format_key f) ctx = Some (VDict [(VStr "in", p_raw); (VStr "out", o_raw)]) ->
+  format_value FUEL1 ctx p_raw = Ok (VStr path) ->
+  format_value FUEL1 ctx o_raw = Ok (VStr opath) ->
+  fs_read path files = Some text ->
+  fileformat_obj c ctx text = Ok out ->
+  fileformat_step f c ctx files = Ok (fs_write opath out files).
+Proof. exact fileformat_step_out. Qed.
+Print Assumptions C16_fileformat_step_out.
+
+(** * Non-vacuity: concrete instances, evaluated *)
+Definition doc0 : val :=
+  VDict [(VStr "", VStr "true"); (VStr "1", VList [VStr "null"; VStr " x "; VInt (-7); VNone;
+         VBool false; VList []; VDict []; VStr (String (ascii_of_nat 1) "é""\")]);
+         (VStr "nested", VDict [(VStr "k", VDict [(VStr "deep", VList [VList [VInt 0]])])])].
+
+Example C16_json_roundtrip_nonvacuous :
+  json_representable doc0 /\
+  json_print (VDict [(VStr "a", VList [VInt 1; VStr "x"])]) =
+    Some ("{" ++ nl 1 ++ """a"": [" ++ nl 2 ++ "1," ++ nl 2 ++ """x""" ++ nl 1 ++ "]" ++ nl 0 ++ "}") /\
+  (exists s, json_print doc0 = Some s /\ json_parse s = Some doc0) /\
+  json_parse " [1 , ""é😀"", {""k"": null, ""k"": true}] "
+    = Some (VList [VInt 1; VStr "é😀"; VDict [(VStr "k", VBool true)]]) /\
+  json_parse "[1.5]" = None /\ json_parse "[01]" = None /\ json_parse "[1,]" = None.
+Proof.
+  split; [vm_compute; reflexivity|]. split; [vm_compute; reflexivity|].
+  split; [exists (jprint 0 doc0); split; vm_compute; reflexivity|].
+  vm_compute. repeat split.
+Qed.
+
+Definition wf_ctx : dict :=
+  [(VStr "dir", VStr "/T"); (VStr "n", VInt 3); (VStr "who", VStr "w3");
+   (VStr "fileWriteJson",
+      VDict [(VStr "path", VStr "{dir}/o.json");
+             (VStr "payload", VDict [(VStr "k{n}", VStr "{who}"); (VStr "lit", VStr "{{x}}");
+                                     (VStr "t", VStr "true")])]);
+   (VStr "fetchJson", VDict [(VStr "path", VStr "{dir}/o.json"); (VStr "key", VStr "out")])].
+
+Example C16_write_fetch_nonvacuous :
+  exists files,
+    write_step FJson json_codec wf_ctx [] = Ok files /\
+    fetch_step FJson json_codec wf_ctx files =
+      Ok (wf_ctx ++ [(VStr "out", VDict [(VStr "k3", VStr "w3"); (VStr "lit", VStr "{x}");
+                                         (VStr "t", VStr "true")])])%list /\
+    format_value FUEL1 wf_ctx (VDict [(VStr "k{n}", VStr "{who}"); (VStr "lit", VStr "{{x}}");
+                                      (VStr "t", VStr "true")])
+      = Ok (VDict [(VStr "k3", VStr "w3"); (VStr "lit", VStr "{x}"); (VStr "t", VStr "true")]) /\
+    json_representable (VDict [(VStr "k3", VStr "w3"); (VStr "lit", VStr "{x}");
+                               (VStr "t", VStr "true")]).
+Proof.
+  exists [("/T/o.json",
+           "{" ++ nl 1 ++ """k3"": ""w3""," ++ nl 1 ++ """lit"": ""{x}""," ++ nl 1
+           ++ """t"": ""true""" ++ nl 0 ++ "}")].
+  vm_compute. repeat split.
+Qed.
+
+Example C16_fileformat_nonvacuous :
+  fileformat_obj json_codec [(VStr "n", VInt 3); (VStr "s", VStr "v")]
+    "{""k{n}"": [""{s}"", ""{n}"", 1, null, ""{{b}}""]}"
+  = Ok ("{" ++ nl 1 ++ """k3"": [" ++ nl 2 ++ """v""," ++ nl 2 ++ "3," ++ nl 2 ++ "1,"
+        ++ nl 2 ++ "null," ++ nl 2 ++ """{b}""" ++ nl 1 ++ "]" ++ nl 0 ++ "}").
+Proof. vm_compute. reflexivity. Qed.
+
+(** the hypothesis domains are inhabited, and exclude what they are meant to exclude *)
+Example C16_domains_nonvacuous :
+  yaml_representable (VDict [(VStr "~", VList [VStr "true"; VStr "a b"; VNone; VInt 1])]) = true /\
+  yaml_representable (VStr ("a" ++ String (ascii_of_nat 194) (String (ascii_of_nat 133) "b"))) = false /\
+  yaml_representable (VStr (String (ascii_of_nat 27) "a a")) = false /\
+  yaml_representable (VStr (String (ascii_of_nat 27) "aa")) = true /\
+  toml_representable (VDict [(VStr "", VList [VStr "x"; VDict [(VStr "k", VBool true)]])]) = true /\
+  toml_representable (VDict [(VStr "n", VNone)]) = false /\
+  toml_representable (VDict []) = false /\
+  val_eqv (VDict [(VStr "a", VInt 1); (VStr "d", VDict []); (VStr "b", VInt 2)])
+          (VDict [(VStr "a", VInt 1); (VStr "b", VInt 2); (VStr "d", VDict [])]) = true.
+Proof. vm_compute. repeat split. Qed.
